@@ -98,6 +98,67 @@ theorem consume_each_record_once (any : Bool) (L : Nat) (h : Int) (rs : List Rec
     total (consume any L h rs u).1 + (u - (consume any L h rs u).2) = total rs :=
   ⟨consume_shrinks any L h rs u, (consume_total any L h rs u).1⟩
 
+/-! ### exactness, refusal, aliasing, zero records -/
+
+/-- `MsgRemoveLiquidityUnits{WithdrawUnits = w}` that is accepted burns exactly `w` units -/
+theorem removeUnits_burns_exactly (s s' : St) (h : Int) (k : String) (w : Nat)
+    (hok : step s h (.removeUnits k w) = (s', .ok)) :
+    ∃ lp, s.lps k = some lp ∧ w ≤ lp.units ∧ unitsOf (s'.lps k) = lp.units - w := by
+  obtain ⟨o, hr, hs⟩ := commit_ok (show commit s k (removeUnitsH s.L s.C h (s.lps k) w) = (s', .ok) from hok)
+  obtain ⟨lp, hlp, hle, _, hc⟩ := removeUnitsH_ok_exact hr
+  obtain ⟨_, hu, _⟩ := removeCore_ok hc
+  subst hs
+  exact ⟨lp, hlp, hle, by rw [set_same, hu]⟩
+
+/-- the refusing direction: under a lock period, inside the envelope, a removal of `w` units that
+    the provider's matured, unexpired requests do not cover is NOT accepted, and nothing changes -/
+theorem remove_refused_when_short (s : St) (h : Int) (k : String) (w : Nat) (lp : LP)
+    (hlp : s.lps k = some lp) (hL : s.L ≠ 0) (henv : inEnvelope s.L s.C h lp.unlocks = true)
+    (hw : w ≤ lp.units) (hshort : usable s.L s.C h lp.unlocks < w) :
+    (step s h (.removeUnits k w)).2 ≠ .ok ∧ (step s h (.removeUnits k w)).1 = s := by
+  have hne : (step s h (.removeUnits k w)).2 ≠ .ok := by
+    intro hok
+    have hst : step s h (.removeUnits k w) = ((step s h (.removeUnits k w)).1, .ok) := by rw [← hok]
+    obtain ⟨lp', hlp', _, hexact⟩ := removeUnits_burns_exactly _ _ h k w hst
+    rw [hlp] at hlp'; cases hlp'
+    have := remove_requires_matured_explicit s _ h k w lp hlp hL henv hst
+    rw [hexact] at this
+    omega
+  exact ⟨hne, refused_changes_nothing s h _ hne⟩
+
+/-- pointer aliasing: what an accepted removal leaves in the store is the list as CONSUMED by
+    `UseUnlockedLiquidity` (records keep position and height, units only shrink), although that
+    function received the provider record by value and its own zero-record filter is lost -/
+theorem removal_stores_consumed_records (s s' : St) (h : Int) (k : String) (w : Nat)
+    (hok : step s h (.removeUnits k w) = (s', .ok)) :
+    ∃ lp, s.lps k = some lp ∧ ∀ lp', s'.lps k = some lp' →
+      lp'.unlocks = (consume false s.L h (prune s.L s.C h lp.unlocks) (lp.units - lp'.units)).1 ∧
+      shrinks (prune s.L s.C h lp.unlocks) lp'.unlocks = true := by
+  obtain ⟨lp, left, o, hlp, hc, hs⟩ := step_removeUnits_ok hok
+  refine ⟨lp, hlp, ?_⟩
+  intro lp' hlp'
+  subst hs
+  rw [set_same] at hlp'
+  obtain ⟨_, hu, _, _, _, hun⟩ := removeCore_ok hc
+  have e := hun lp' hlp'
+  have hl : lp'.units = left := by rw [hlp'] at hu; exact hu
+  rw [hl]
+  exact ⟨e, by rw [e]; exact consume_shrinks _ _ _ _ _⟩
+
+/-- zero-unit records that linger in the store never count: the four handlers see the stored list
+    only through `PruneUnlockRecords`, so they answer the same with or without them -/
+theorem zero_records_never_count (L C : Nat) (h : Int) (lp : LP) (u : Nat) (wb a : Int) :
+    unlockH L C h (some lp) u = unlockH L C h (some ⟨lp.units, lp.unlocks.filter nonzero⟩) u ∧
+    cancelH L C h (some lp) u = cancelH L C h (some ⟨lp.units, lp.unlocks.filter nonzero⟩) u ∧
+    removeUnitsH L C h (some lp) u = removeUnitsH L C h (some ⟨lp.units, lp.unlocks.filter nonzero⟩) u ∧
+    removeH L C h (some lp) wb a = removeH L C h (some ⟨lp.units, lp.unlocks.filter nonzero⟩) wb a := by
+  have hp := prune_filter_nonzero L C h lp.unlocks
+  refine ⟨?_, ?_, ?_, ?_⟩
+  · simp only [unlockH, unlockLP, hp]
+  · simp only [cancelH, cancelLP, hp]
+  · simp only [removeUnitsH, removeUnitsLP, hp]
+  · simp only [removeH, removeLP, removeLP2, hp]
+
 /-! ### outstanding_le_units -/
 
 /-- After every message of every history whose block heights do not decrease (and are valid int64
@@ -209,6 +270,10 @@ example : (step (run (St.init 3 50) (exampleHistory.take 2)) 12 (.removeUnits "p
 example : (step (run (St.init 3 50) (exampleHistory.take 2)) 13 (.removeUnits "p" 40)).2 = .ok := by decide
 example : (step (run (St.init 3 50) (exampleHistory.take 4)) 13 (.removeUnits "p" 1)).2 = .err .bal := by decide
 example : inEnvelope 3 50 13 [⟨10, 40⟩] = true := by decide
+/-- hypotheses of `remove_refused_when_short` at height 12: nothing usable yet, 40 ≤ 100 units -/
+example : inEnvelope 3 50 12 [⟨10, 40⟩] = true ∧ usable 3 50 12 [⟨10, 40⟩] < 40 := by decide
+/-- at height 63 = 10 + 3 + 50 the request has expired -/
+example : usable 3 50 62 [⟨10, 40⟩] = 40 ∧ usable 3 50 63 [⟨10, 40⟩] = 0 := by decide
 /-- the zero-unit record lingers in the store after a removal (it is dropped at the next prune) -/
 example : ((run (St.init 3 50) (exampleHistory.take 4)).lps "p") = some ⟨60, [⟨10, 0⟩]⟩ := by decide
 /-- lock period 0: the same removal needs no request -/
